@@ -13,8 +13,9 @@ string c16_misc_case(const std::vector<string>& t);     // sl, trl, idxrun, iran
 string c16_hy_case(const std::vector<string>& t);       // hy
 string c16_extra_case(const std::vector<string>& t);    // impl2.cc
 string c16_audit_case(const std::vector<string>& t);    // impl4.cc
+string c16_audit2_case(const std::vector<string>& t);   // impl5.cc
 #define SIR(k) string c16_sirange_##k(const std::vector<string>& t);
-SIR(0) SIR(1) SIR(2) SIR(3) SIR(4) SIR(5) SIR(6) SIR(7) SIR(8) SIR(9)
+SIR(0) SIR(1) SIR(2) SIR(3) SIR(4) SIR(5) SIR(6) SIR(7) SIR(8) SIR(9) SIR(10) SIR(11)
 static std::vector<string> split(const string& s, char sep = ' ')
 {
   std::vector<string> r; string cur; std::istringstream is(s);
@@ -40,7 +41,11 @@ int main(int argc, char** argv)
         if (t[0] == "hyx" && t[1] == "dyn") return true;
         if (t[0] == "trx" && (t[1] == "nested" || t[1] == "fvbase" || t[1] == "itrange" || t[1] == "copy" || t[1] == "twice" || t[1] == "cat")) return true;
         return false; };
+      auto is_audit2 = [&]() {
+        if (t[0] == "asg" || t[0] == "asgv" || t[0] == "idxcmp" || t[0] == "sparsei" || t[0] == "irangex") return true;
+        return t.size() > 1 && (t[0] == "cmp" || t[0] == "step") && (t[1] == "dynov" || t[1] == "genov"); };
       if (t.empty()) out = "BADCASE";
+      else if (is_audit2()) out = c16_audit2_case(t);
       else if (is_audit()) out = c16_audit_case(t);
       else if (t[0] == "cmp" || t[0] == "step" || t[0] == "cmpx") {
         string kind = split(t[1], ':')[0];
@@ -55,7 +60,7 @@ int main(int argc, char** argv)
           case 0: out = c16_sirange_0(t); break; case 1: out = c16_sirange_1(t); break; case 2: out = c16_sirange_2(t); break;
           case 3: out = c16_sirange_3(t); break; case 4: out = c16_sirange_4(t); break; case 5: out = c16_sirange_5(t); break;
           case 6: out = c16_sirange_6(t); break; case 7: out = c16_sirange_7(t); break; case 8: out = c16_sirange_8(t); break;
-          case 9: out = c16_sirange_9(t); break; default: out = "BADCASE";
+          case 9: out = c16_sirange_9(t); break; case 10: out = c16_sirange_10(t); break; case 11: out = c16_sirange_11(t); break; default: out = "BADCASE";
         }
       }
       else if (t[0] == "cont" || t[0] == "bcmp" || t[0] == "bstep" || t[0] == "ncmp" || t[0] == "nstep" || t[0] == "trx" || t[0] == "rutil"
